@@ -592,7 +592,9 @@ def run_tla(case):
         dot = os.path.join(tmp, 'g.dot')
         cmd = ['tlc', '-workers', '1', '-noGenerateSpecTE', '-deadlock', '-metadir', os.path.join(tmp, 'meta'),
                '-dump', 'dot,actionlabels', dot, '-config', 'SolverClock_%s.cfg' % name, 'SolverClock.tla']
-        p = subprocess.run(cmd, cwd=here, capture_output=True, text=True, timeout=600)
+        # TLC creates a scratch directory of its own under java.io.tmpdir and leaves it behind: keep it inside the directory removed below
+        env = dict(os.environ, JAVA_TOOL_OPTIONS=(os.environ.get('JAVA_TOOL_OPTIONS', '') + ' -Djava.io.tmpdir=' + tmp).strip())
+        p = subprocess.run(cmd, cwd=here, capture_output=True, text=True, timeout=600, env=env)
         out = p.stdout + p.stderr
         viol = []
         if 'No error has been found' not in out:
